@@ -7,6 +7,7 @@ import (
 	"go/types"
 	"reflect"
 	"sort"
+	"strconv"
 	"strings"
 
 	"golang.org/x/tools/go/ssa"
@@ -31,6 +32,11 @@ func runC16(c *Check, tier string) {
 	ruleR16j(c)
 	// "the loaded graph does not depend on walk order": a label defined twice (target and alias, two files of one
 	// directory) is rejected whichever definition arrives first
+	// the loaded graph does not depend on the schedule: no package is lost in the loader's shared table
+	ruleTableInsertAtomic(c, "R16l")
+	// the Starlark loader produces the same strings as the other loaders
+	ruleStarlarkDisplayFormNotStored(c, "R16m")
+	ruleSharedMapNotWritten(c, "R16n")
 	shareRule(c, "R16k", "every insertion into the node map is guarded by a lookup of the same label that rejects a duplicate (same obligations as R11c)", 2, "R11c", func(sub *Check) { ruleR11c(sub) }, func(k string) bool { return strings.Contains(k, "guarded-insert") })
 }
 
@@ -697,4 +703,101 @@ func isDictItem(x ssa.Value) bool {
 		}
 	}
 	return true
+}
+
+// R16n: a map that is handed out by a process-wide provider (a package-level variable, or the function value
+// made by sync.OnceValue/OnceValues) is one object for every goroutine. Code that can run on several goroutines
+// at once (anything reachable from a goroutine body) may read it but must not write it without a lock: the
+// loaders run one goroutine per BUILD file.
+func ruleSharedMapNotWritten(c *Check, rule string) {
+	c.Rule(rule, "in code reachable from a goroutine body no element is stored into a map that comes from a package-level variable or from a sync.OnceValue provider unless a mutex is held: concurrent loaders do not write one shared map", 1)
+	// package-level func variables initialised by sync.OnceValue*
+	onceProviders := map[*ssa.Global]bool{}
+	for _, fn := range c.P.Funcs {
+		if fn.Name() != "init" || fn.Synthetic == "" {
+			continue
+		}
+		for _, b := range fn.Blocks {
+			for _, in := range b.Instrs {
+				st, ok := in.(*ssa.Store)
+				if !ok {
+					continue
+				}
+				g, ok := st.Addr.(*ssa.Global)
+				if !ok {
+					continue
+				}
+				if call, _ := engine.CallOf(st.Val); call != nil && strings.HasPrefix(engine.CalleeName(call), "sync.OnceValue") {
+					onceProviders[g] = true
+				}
+			}
+		}
+	}
+	var roots []*ssa.Function
+	for _, fn := range c.P.Funcs {
+		for _, s := range engine.SitesIn(fn) {
+			roots = append(roots, spawnedAt(c, s)...)
+		}
+	}
+	conc := c.G.ReachableFuncs(roots, nil)
+	shared := func(v ssa.Value) string {
+		for _, o := range engine.Origins(v) {
+			if o == nil {
+				continue
+			}
+			if ld, ok := o.(*ssa.UnOp); ok {
+				if g, ok := ld.X.(*ssa.Global); ok && engine.IsFirstParty(g.Pkg.Pkg.Path()) {
+					return "the package-level variable " + g.Name()
+				}
+			}
+			if g, ok := o.(*ssa.Global); ok && engine.IsFirstParty(g.Pkg.Pkg.Path()) {
+				return "the package-level variable " + g.Name()
+			}
+			if call, _ := engine.CallOf(o); call != nil {
+				if ld, ok := call.Common().Value.(*ssa.UnOp); ok {
+					if g, ok := ld.X.(*ssa.Global); ok && onceProviders[g] {
+						return "the once-only provider " + g.Name()
+					}
+				}
+			}
+		}
+		return ""
+	}
+	n, bad := 0, 0
+	for fn := range conc {
+		if !engine.IsFirstParty(pkgPathOf(fn)) || len(fn.Blocks) == 0 {
+			continue
+		}
+		var ls *engine.LockSets
+		for _, b := range fn.Blocks {
+			for _, in := range b.Instrs {
+				mu, ok := in.(*ssa.MapUpdate)
+				if !ok {
+					continue
+				}
+				n++
+				src := shared(mu.Map)
+				if src == "" {
+					continue
+				}
+				if ls == nil {
+					ls = engine.ComputeLockSets(fn, nil)
+				}
+				locked := false
+				for k := range ls.Held(mu) {
+					if !strings.HasPrefix(k, "r:") {
+						locked = true
+					}
+				}
+				if locked {
+					continue
+				}
+				bad++
+				c.Bad(rule, "shared-map-not-written/"+c.P.FuncName(fn), "an element is stored into a map obtained from "+src+" in code that runs on several goroutines, with no mutex held: two BUILD files loaded at the same time overwrite each other's entries or the runtime aborts with `concurrent map writes`", c.P.InstrPos(mu))
+			}
+		}
+	}
+	if bad == 0 {
+		c.OK(rule, "shared-map-not-written", strconv.Itoa(n)+" map stores in code reachable from goroutine bodies: none writes a process-wide map without a lock", "-")
+	}
 }
